@@ -16,7 +16,7 @@ func init() {
 		ID:       "C01",
 		Category: "model_checking",
 		Rule: "for every writer setting: (a) every string over {a,b} up to length 10 (14 thorough) and {a,b,c} up to 6 (9), and every content kind at every size of a dense ladder 0..300 plus windows around each internal threshold, as one Write + Close; " +
-			"(a') for the accelerated settings every ramp(k), k=1..300 (k consecutive byte values: every non-zero run length of the header's run-length coder), gap(k), k=1..255 (every zero run length) and Fibonacci-distributed alphabets of 2..40 symbols (Huffman depth beyond 15: length limiting), every period 1..64 at three sizes (long matches at every small distance), 48 variants of back-to-back far copies (tokens with the maximal number of extra bits); " +
+			"(a') for the accelerated settings every ramp(k), k=1..300 (k consecutive byte values: every non-zero run length of the header's run-length coder), gap(k), k=1..255 (every zero run length) and Fibonacci-distributed alphabets of 2..40 symbols (Huffman depth beyond 15: length limiting), every period 1..64 at three sizes (long matches at every small distance), 48 variants of back-to-back far copies (tokens with the maximal number of extra bits), a single copy of every length 4..258 at the first and last distance of every distance symbol, every byte value as first and as second literal of a literal pair; " +
 			"(a'') token-cap straddle: incompressible / text prefixes of every length in [32690,32810) and [65400,65600) followed by a long run, a period-7 run or text, so that the last tokens of a full block are of every kind; " +
 			"(b) every sequence over {Write(piece), Flush}^<=d (d = 2 quick, 4 thorough) followed by Close with pieces chosen to hit the buffer-fill, slide, block-cap and wrap situations; " +
 			"non-trivial = the execution produced at least one compressed block from more than 8 bytes of data or contains a Flush",
@@ -178,10 +178,51 @@ func c01Harness(cfg *Cfg) func(x *mc.Exec) {
 			if !k.Accelerated() {
 				return
 			}
-			fam := x.Choose(5, "shape")
+			fam := x.Choose(7, "shape")
 			var d []byte
 			var nm string
 			switch fam {
+			case 5: // single-copy sweep: every match length 4..258 x the first and last distance of every distance symbol the window allows
+				var L, ds int
+				if cfg.Thorough {
+					L = 4 + x.Choose(255, "copy-len")
+					ds = x.Choose(30, "dist-sym")
+				} else if x.Choose(2, "axis") == 0 {
+					// quick tier: every length at eight distance symbols ...
+					L = 4 + x.Choose(255, "copy-len")
+					ds = []int{0, 1, 3, 4, 9, 16, 23, 29}[x.Choose(8, "dist-sym")]
+				} else {
+					// ... and every distance symbol at the lengths that start or end a length symbol's range
+					L = []int{4, 5, 10, 11, 12, 18, 19, 34, 35, 66, 67, 130, 131, 226, 227, 257, 258}[x.Choose(17, "copy-len")]
+					ds = x.Choose(30, "dist-sym")
+				}
+				lo, hi := distRangeOf(ds)
+				D := lo
+				if x.Choose(2, "first/last") == 1 {
+					D = hi
+				}
+				if D > k.Window() {
+					return
+				}
+				pre := content("rand", D+40)
+				d = append(append([]byte{}, pre...), pre[40:40+minInt(L, D)]...)
+				for len(d) < len(pre)+L { // overlapping copy when L > D
+					d = append(d, d[len(d)-D])
+				}
+				d = append(d, content("rand", 300)[260:300]...)
+				nm = fmt.Sprintf("copy(len=%d,dist=%d)", L, D)
+			case 6: // literal pairs: every value as second and as first literal of a pair
+				v := x.Choose(256, "value")
+				o := x.Choose(2, "order")
+				d = make([]byte, 0, 48)
+				for i := 0; i < 12; i++ {
+					if o == 0 {
+						d = append(d, byte('a'+i), byte(v))
+					} else {
+						d = append(d, byte(v), byte('A'+i))
+					}
+				}
+				nm = fmt.Sprintf("pairs(value=%d,order=%d)", v, o)
 			case 3: // every period 1..64 (matches longer than 258 at every small distance, the re-seeding of the hash after capped matches)
 				pp := 1 + x.Choose(64, "period")
 				n := []int{600, 9000, 70000}[x.Choose(3, "size")]
@@ -273,4 +314,18 @@ func c01Harness(cfg *Cfg) func(x *mc.Exec) {
 		}
 		x.Outcome(fmt.Sprintf("%s in=%d out=%d", k, len(r.data), len(sink.Buf)))
 	}
+}
+
+var cDistBase = [30]int{1, 2, 3, 4, 5, 7, 9, 13, 17, 25, 33, 49, 65, 97, 129, 193, 257, 385, 513, 769, 1025, 1537, 2049, 3073, 4097, 6145, 8193, 12289, 16385, 24577}
+var cDistExtra = [30]int{0, 0, 0, 0, 1, 1, 2, 2, 3, 3, 4, 4, 5, 5, 6, 6, 7, 7, 8, 8, 9, 9, 10, 10, 11, 11, 12, 12, 13, 13}
+
+func distRangeOf(sym int) (int, int) {
+	return cDistBase[sym], cDistBase[sym] + 1<<uint(cDistExtra[sym]) - 1
+}
+
+func minInt(a, b int) int {
+	if a < b {
+		return a
+	}
+	return b
 }
